@@ -52,6 +52,7 @@ PROP = [  # substring of the commit subject -> property whose check found it, wh
  ("evaluated by the Prometheus engine are safe next to Exec", "C12", "Close() from a second goroutine while a fallback query executes: data race between promql.(*query).Close (reads q.matrix) and execEvalStmt (writes it), reported by the race-detector half once concurrent clients were cancelled/closed; Close did not abort the fallback query either"),
  ("with the query's lookback", "C10", "distributed query with QueryOpts.LookbackDelta=1m (bottomk(1, 1 % m1), sample older than 1m): the remote engines used their default 5m lookback; first seen in a thorough C13 run as a follow-up difference, then by C10 once its generator drew per-query lookbacks"),
  ("reads at the pinned time at every step", "C01", "quantile(scalar(timestamp(m1 @ 87007.744)), vector(time())) over 21 steps: NaN at the last step, reference +Inf (found once the selector profile drew selectors as aggregation parameters)"),
+ ("different range hints are not shared", "C16", "present_over_time(m3[1m] @ end()) <= present_over_time(m3[2s500ms]) over [1234567..1292067]: one storage select with range=60000 where the reference issues a second one with range=2500 (thorough C16, seed 5)"),
  ("Cancel and Close of a query are safe", "C13", "Cancel() from a second goroutine parked between the nil check and the call while the caller's Close() ran after Exec returned: nil-pointer panic on the caller's goroutine (found once the automatic yield points covered cancel calls)"),
  ("overtakes the start of Exec", "C14", "Cancel() issued after Exec was called but before Exec stored its cancel function was dropped; the query ran to completion (schedule: main parked in front of the new mutex, canceller first)"),
  ("unary minus rejects equal output labels", "C01", "-{__name__=~\"m.*\"} with samples at different steps: reference fails, engine merged"),
